@@ -251,6 +251,9 @@ def sequence(rec, rng, cid, scratch):
         key = (str(path), enum)
         user = (int(rng.integers(0, 11)), "user%d" % rng.integers(3),
                 "comment %d" % rng.integers(1000))
+        if rng.random() < .4:
+            # ratings are numbers, not necessarily integers
+            user = (float(rng.integers(0, 20)) / 2, user[1], user[2])
         if rng.random() < .25:
             # empty user fields are values like any other (e.g. a comment
             # that is withdrawn when the curve is rated again)
